@@ -90,7 +90,7 @@ def size(f):
 # ------------------------------------------------------------------ programs
 def programs(tier, seed):
     rng = Rng(seed ^ 0xDEE9)
-    n = 70 if tier == 'quick' else 700
+    n = 70 if tier == 'quick' else 500
     progs = []
     cdir = '/verif/corpus/C02'
     for fn in sorted(os.listdir(cdir)) if os.path.isdir(cdir) else []:
@@ -285,7 +285,7 @@ WITNESS_RAW_INIT = {'params': [1], 'body': [['bin', 2, 'PLUS', ['i', 1], ['i', 2
 
 def synthetic(tier, seed):
     rng = Rng(seed ^ 0x5EED)
-    return [MirGen(rng.fork()).function() for _ in range(400 if tier == 'quick' else 6000)]
+    return [MirGen(rng.fork()).function() for _ in range(400 if tier == 'quick' else 4000)]
 
 
 def real_pass_batch(funcs, pass_name):
@@ -377,14 +377,14 @@ def deep(ck, tier, seed):
           % (infrag, nfun, 100.0 * infrag / max(nfun, 1), len(cases)))
     # shard by size so that the shards take similar time
     order = sorted(range(len(cases)), key=lambda j: -size(cases[j][1]))
-    nshard = max(1, min(NCPU, len(cases)))
+    nshard = max(1, min(4 * NCPU, len(cases) // 40 + 1))      # small shards: balanced, and far from the timeout under load
     shards = [order[s::nshard] for s in range(nshard)]
     jobs = []
     for si, idxs in enumerate(shards):
         body = HEADER + 'Definition cs : list (pass * func * func) := [\n%s].\nEval vm_compute in (tie_cases cs).\n' % ';\n'.join(
             '(%s, %s, %s)' % (MODELLED[cases[j][0]], g_func(cases[j][1]), g_func(cases[j][2])) for j in idxs)
         jobs.append(('c02deep_%d' % si, body))
-    outs = coq_eval_many(jobs, timeout=900) if ok or True else []
+    outs = coq_eval_many(jobs, timeout=1500)
     stats = {}
     for si, (rc, o) in enumerate(outs):
         resl = coq_result(o) if rc == 0 else None
